@@ -1729,6 +1729,7 @@ def normalize(tree):
     tree = n.visit(tree)
     n.counts['prologue_decorators'] = n_dec
     n.counts['iterate_self'] = iterate_self(tree)
+    n.counts['quantifiers_over_literals'] = quantifiers_over_literals(tree)
     n.counts['filled_arrays'] = filled_arrays_to_fromiter(tree)
     n.counts['partials'] = partials_to_calls(tree)
     n.counts['zip_of_maps'] = zip_of_maps(tree)
@@ -2010,4 +2011,41 @@ def constant_getattr(tree):
                 return ast.copy_location(ast.Attribute(value=n.args[0], attr=n.args[1].value, ctx=ast.Load()), n)
             return n
     T().visit(tree)
+    return count
+
+
+def quantifiers_over_literals(tree, max_items=6):
+    """N51: `any(P(x) for x in (a, b, c))` is `P(a) or P(b) or P(c)`, `all(...)` the conjunction - for a literal tuple / list of constants and a call-light
+    predicate (a quantifier over a written-out table reads like the written-out test)."""
+    import copy
+    count = 0
+
+    class Sub(ast.NodeTransformer):
+        def __init__(self, name, val):
+            self.name, self.val = name, val
+
+        def visit_Name(self, node):
+            if node.id == self.name and isinstance(node.ctx, ast.Load):
+                return copy.deepcopy(self.val)
+            return node
+
+    class T(ast.NodeTransformer):
+        def visit_Call(self, n):
+            nonlocal count
+            self.generic_visit(n)
+            if isinstance(n.func, ast.Name) and n.func.id in ('any', 'all') and len(n.args) == 1 and not n.keywords and isinstance(n.args[0], (ast.GeneratorExp, ast.ListComp)):
+                g = n.args[0]
+                if len(g.generators) == 1 and not g.generators[0].ifs and not g.generators[0].is_async and isinstance(g.generators[0].target, ast.Name) \
+                        and isinstance(g.generators[0].iter, (ast.Tuple, ast.List)) and 1 <= len(g.generators[0].iter.elts) <= max_items \
+                        and all(isinstance(e, ast.Constant) for e in g.generators[0].iter.elts) \
+                        and not any(isinstance(x, (ast.Lambda, ast.Yield, ast.YieldFrom, ast.NamedExpr, ast.GeneratorExp, ast.ListComp)) for x in ast.walk(g.elt)):
+                    x = g.generators[0].target.id
+                    terms = [Sub(x, e).visit(copy.deepcopy(g.elt)) for e in g.generators[0].iter.elts]
+                    count += 1
+                    if len(terms) == 1:
+                        return ast.copy_location(terms[0], n)
+                    return ast.copy_location(ast.BoolOp(op=ast.Or() if n.func.id == 'any' else ast.And(), values=terms), n)
+            return n
+    T().visit(tree)
+    ast.fix_missing_locations(tree)
     return count
